@@ -180,6 +180,17 @@ CHECKS = {
             "sampled, lengths are exhaustive up to 130.",
             "TLA+ contract table checked by TLC against recorded API calls over all input lengths",
             "5/C19"),
+    "C06": ("exploration",
+            "Monitor specification: Backends.tla admits a workload step only if every configuration reports the same digest of the "
+            "caller-observable part of the event. The deterministic workloads are the recorders of C01 C02 C03 C05 C07 C09 C10 C11 C13 "
+            "(merlin, raw STROBE, Keccak-f alone) C17 C19 - every exported operation family on boundary and seeded inputs, incl. accept/"
+            "reject decisions and error classes - run with one seed under {default, GODEBUG=cpu.avx2=off, -tags purego, -tags force32bit}; "
+            "79k steps x 4 configurations in quick. A workload that completes under the default configuration but crashes under another is "
+            "reported as a divergence. Agreement with the specification (not merely mutual) is decided per backend by the other checks.",
+            "Trusts TLC/SANY; the exploration is the recorders'; if the host CPU has no AVX2 the first two configurations coincide (the "
+            "evidence records whether the vector backend was live).",
+            "TLA+ configuration-equivalence monitor checked by TLC over merged per-step observations from four builds",
+            "5/C06"),
 }
 
 NOT_YET = "check not built yet in this round (planned, see DESIGN.md section 11); not claimed until its machinery exists"
